@@ -224,6 +224,19 @@ func Gen(r *rand.Rand, cfg Cfg) (*Program, []string) {
 	for pi, pl := range plans {
 		g.file = pl.f
 		g.mainRoot = pl == chain[len(chain)-1]
+		kind := "imported"
+		switch {
+		case g.mainRoot && len(chain) > 1:
+			kind = "extended-root"
+		case g.mainRoot:
+			kind = "main"
+		case indexOf(chain, pl) >= 0:
+			kind = "extending"
+		}
+		if _, inc := isInc(pl); inc {
+			kind = "included"
+		}
+		g.where = []string{kind}
 		g.frames = [][]string{root}
 		g.blocks = mainBlocks
 		incPath, inFamily := isInc(pl)
